@@ -33,14 +33,16 @@ Definition p_part_header (method : N) : P part_hdr :=
   if k =? esc then (w <-- p_rd 5 ;; if w =? 0 then pret HZero else pret (HEsc w))
   else pret (HRice k).
 
-(* decode.rs:1823-1830 / stream.rs:3018-3026: one Rice-coded residual.
-   unsigned = (msb << rice) | lsb computed in u32 (bits shifted out are lost) *)
+(* decode.rs read_block / stream.rs ResidualPartition::from_reader: one Rice-coded residual.
+   unsigned = (msb << rice) | lsb computed in u32 *)
 Definition zigzag_decode (u : N) : Z :=
   if N.odd u then (- Z.of_N (u / 2) - 1)%Z else Z.of_N (u / 2).
 Definition p_rice (k : N) : P Z :=
   msb <-- p_unary true ;;
   lsb <-- p_rd (N.to_nat k) ;;
-  pret (zigzag_decode ((msb * 2 ^ k) mod 2 ^ 32 + lsb)).
+  (* repo fix 62b22a6: msb > (u32::MAX >> rice) is ResidualOverflow (before: high bits silently lost) *)
+  _ <-- p_guard (msb <=? (2 ^ 32 - 1) / 2 ^ k) EResidualOverflow ;;
+  pret (zigzag_decode (msb * 2 ^ k + lsb)).
 
 Definition p_partition (h : part_hdr) (n : nat) : P (list Z) :=
   match h with
